@@ -4,6 +4,9 @@ NOTES = ('Contract-based deductive verification. ./check <id> extracts the ancho
          '2 = undecided (lost anchor, unsupported construct, solver gave up) and is never reported as a violation.')
 
 NOT_APPLICABLE = {
+    'C03': 'the Java status is serde_json::Value navigation, the Bedrock pong and the legacy kick packets are String::split / String::from_utf16 / str::parse chains: outside the Verus subset (no str reasoning, no iterator adapters) and Kani does not terminate on symbolic String code (probes in DESIGN.md 1.2 and 6). Proved elsewhere: VarInt and Minecraft string framing (C17), first requests (C09), accessors (C15); the legacy u16*2 overflow found while reading was fixed (DESIGN.md 4.1)',
+    'C04': 'GameSpy 1/2 key-value and table parsing is str::split / HashMap<String,String> / str::parse code, GameSpy 3 data_to_map and parse_players_and_teams likewise: outside the Verus subset and beyond Kani (parse_players_and_teams on 10 symbolic bytes > 15 min). Proved elsewhere: GameSpy 3 framing, challenge, packet table (C08, C09 in U-GS3), first requests (C09), accessors (C15); three GameSpy 1 defects found while reading were fixed (DESIGN.md 4.1)',
+    'C05': 'the Quake status parser is lines() / split / join / str::parse over a lossily decoded String: outside the Verus subset and beyond Kani for the same reason as C04. First requests are covered by C09; two Quake defects found while reading (player loop never entered, single-quote line panic) were fixed (DESIGN.md 4.1)',
     'C12': 'wall-clock bounds and kernel socket behaviour are outside what a function contract can state: std::net calls are foreign code to both Verus and Kani (DESIGN.md 3/C12)',
     'C19': 'property is about process stdout/exit status and third-party serializer grammars (serde_json, quick_xml, bson, hex, base64) built on trait objects and fmt; neither verifier reaches them (DESIGN.md 3/C19)',
     'C20': 'the id checker is str iterator chains with Unicode predicates, closures mutating captured state, format!, third-party roman/number-word crates; Verus rejects each construct and Kani only runs a few bytes (DESIGN.md 3/C20)',
